@@ -468,6 +468,12 @@ example : (∀ e ∈ ([⟨"tgt", ["src"], [], []⟩, ⟨"src", [], [], []⟩] : 
 largest is `#chunks - 1`.  For the grouping `[[0,1],[2]]` of three chunks that is right … -/
 example : mergeChunkNumber 3 [[0, 1], [2]] = .ok none := by decide
 
+/-- For every proper grouping — the chunk numbers of the groups, read in order, are `0 … n-1` — the
+merged data is stored under the plain key of the target. -/
+theorem merge_key_plain_for_partition (n : Nat) (groups : List (List Nat)) (hn : 1 ≤ n)
+    (h : groups.flatten = List.range n) : mergeChunkNumber n groups = .ok none :=
+  mergeChunkNumber_partition n groups hn h
+
 /-- … but completeness and order are not looked at (observation, outside the property's quantifier
 "groupings of the dependency chunks"): `[[0],[2]]` of three chunks is stored under the plain key
 although chunk 1 is missing, and so is `[[1],[0]]` of two chunks, out of order. -/
